@@ -81,8 +81,138 @@ theorem expectPeekVarOrAutoVar_first (env : Env) (sn : String) (n : Nat) (s : PS
       (fun r _ => ∀ x, r = some x → x.2.1.tok = s.toks.tail.headD s.eof) := by
   unfold expectPeekVarOrAutoVar
   swp [wp_spec (parseCommandStatement_first _ _ _ _)]
-  (repeat' split) <;> swp [wp_spec (parseCommandStatement_first _ _ _ _)]
-  all_goals trace_state
-  all_goals sorry
+  repeat' split
+  · intro x hx; cases hx
+  · trivial
+  · swp [wp_spec (parseCommandStatement_first _ _ _ _)]
+    intro a s' _ h x hx
+    cases hx
+    exact h
+  · swp [wp_spec (parseCommandStatement_first _ _ _ _)]
+    intro a s' _ h
+    split
+    · trivial
+    · intro x hx
+      cases hx
+      exact h
+  · swp
+
+/-- The result of a `switch` statement: the switch statement with the current token, preceded by
+the preamble command when the operand is an auto-var command (whose token is the third token). -/
+def SwitchRes (s : PState) (r : List Stmt × ImpData) : Prop :=
+  ∃ pre st, r.1 = pre ++ [st] ∧ stmtTok st = curTok s ∧
+    (pre = [] ∨ ∃ c, pre = [.cmd c] ∧ c.tok = s.toks.tail.tail.headD s.eof)
+
+theorem parseSwitchStatement_first (env : Env) (sn : String) (n : Nat) (s : PState) :
+    wp (parseSwitchStatement env sn n) s (fun r _ => SwitchRes s r) := by
+  cases n with
+  | zero => rw [parseSwitchStatement]; wpsimp
+  | succ n =>
+    rw [parseSwitchStatement]
+    swp [wp_spec (expectPeekVarOrAutoVar_first _ _ _ _)]
+    split
+    · intro a s1 _ h
+      split
+      · -- `var(...)`
+        swp [wp_run_iff (parseSwitchCases _ _ _ _ _ _ _ _), wp_run_iff (parseSwitchStatement.switchOperandLoop _ _ _)]
+        intros
+        split
+        · intros
+          split
+          · trivial
+          · exact ⟨[], _, rfl, rfl, Or.inl rfl⟩
+        · trivial
+      · -- auto-var command
+        rename_i nm cmd aimp _
+        have hc := h _ rfl
+        swp [wp_run_iff (parseSwitchCases _ _ _ _ _ _ _ _)]
+        split
+        · split
+          · intros
+            split
+            · trivial
+            · exact ⟨[.cmd cmd], _, rfl, rfl, Or.inr ⟨cmd, rfl, hc⟩⟩
+          · trivial
+        · trivial
+    · trivial
+
+theorem One.switchRes {s : PState} {r : List Stmt × ImpData} (h : One s r) : SwitchRes s r := by
+  obtain ⟨st, h1, h2⟩ := h
+  exact ⟨[], st, h1, h2, Or.inl rfl⟩
+
+/-- **The token of a parsed statement is the token the parser started at.** When `parseStatement`
+succeeds from `s` and the current token is not `poryswitch`, it returns `pre ++ [st]` where the token
+stored in `st` IS the current token `s.toks.headD s.eof`, and `pre` is empty unless the statement is
+a `switch` over an auto-var command, in which case `pre` is that command, whose token is the third
+token of the window (`switch ( cmd …`). -/
+theorem parseStatement_first_tok (env : Env) (sn : String) (n : Nat) (s : PState)
+    (hps : (curTok s).type ≠ .PORYSWITCH) :
+    wp (parseStatement env sn n) s (fun r _ => SwitchRes s r ∧
+      ((curTok s).type ≠ .SWITCH → One s r)) := by
+  cases n with
+  | zero => rw [parseStatement]; wpsimp
+  | succ n =>
+    rw [parseStatement]
+    swp
+    split
+    · -- IDENT: label or command
+      rename_i hty
+      swp [wp_spec (tryParseLabel_first _)]
+      intro a s' _ h
+      cases a with
+      | some st =>
+        obtain ⟨nm, g, rfl⟩ := h.2 st rfl
+        swp
+        exact ⟨⟨[], _, rfl, rfl, Or.inl rfl⟩, fun _ => ⟨_, rfl, rfl⟩⟩
+      | none =>
+        have hs : s' = s := h.1 rfl
+        subst hs
+        swp [wp_spec (parseCommandStatement_first _ _ _ _)]
+        intro r s'' _ hr
+        exact ⟨⟨[], _, rfl, hr, Or.inl rfl⟩, fun _ => ⟨_, rfl, hr⟩⟩
+    · exact wp_mono (parseIfStatement_first env sn n s) fun r _ h => ⟨h.switchRes, fun _ => h⟩
+    · exact wp_mono (parseWhileStatement_first env sn n s) fun r _ h => ⟨h.switchRes, fun _ => h⟩
+    · exact wp_mono (parseDoWhileStatement_first env sn n s) fun r _ h => ⟨h.switchRes, fun _ => h⟩
+    · -- BREAK
+      swp
+      split
+      · swp
+      · swp
+        exact ⟨⟨[], _, rfl, rfl, Or.inl rfl⟩, fun _ => ⟨_, rfl, rfl⟩⟩
+    · -- CONTINUE
+      swp
+      split
+      · swp
+      · swp
+        split
+        · trivial
+        · exact ⟨⟨[], _, rfl, rfl, Or.inl rfl⟩, fun _ => ⟨_, rfl, rfl⟩⟩
+    · -- SWITCH
+      rename_i hty
+      exact wp_mono (parseSwitchStatement_first env sn n s) fun r _ h => ⟨h, fun hne => absurd hty hne⟩
+    · -- PORYSWITCH
+      rename_i hty
+      exact absurd hty hps
+    · swp
+
+/-- Run form. -/
+theorem parseStatement_first_tok_run {env : Env} {sn : String} {fuel : Nat} {s s' : PState}
+    {sts : List Stmt} {imp : ImpData}
+    (h : (parseStatement env sn fuel).run s = .ok ((sts, imp), s'))
+    (hps : (s.toks.headD s.eof).type ≠ .PORYSWITCH) :
+    ∃ pre st, sts = pre ++ [st] ∧ stmtTok st = s.toks.headD s.eof ∧
+      (pre = [] ∨ ((s.toks.headD s.eof).type = .SWITCH ∧
+        ∃ c, pre = [.cmd c] ∧ c.tok = s.toks.tail.tail.headD s.eof)) := by
+  obtain ⟨⟨pre, st, h1, h2, h3⟩, hone⟩ := parseStatement_first_tok env sn fuel s hps _ _ h
+  refine ⟨pre, st, h1, h2, ?_⟩
+  rcases h3 with h3 | h3
+  · exact Or.inl h3
+  · by_cases hsw : (s.toks.headD s.eof).type = .SWITCH
+    · exact Or.inr ⟨hsw, h3⟩
+    · obtain ⟨st', e1, _⟩ := hone hsw
+      obtain ⟨c, rfl, _⟩ := h3
+      simp only at h1 e1
+      rw [e1] at h1
+      simp at h1
 
 end Pory.Parser
